@@ -28,8 +28,21 @@ func VP_C07_codec_inode_header() {
 		index:     vp.U32("index"),
 		mode:      0,
 	}
+	// the header stores the 12 low unix mode bits (permissions + setuid/setgid/sticky); the Go
+	// mode carrying them is built here independently of the library's conversion
 	perm := vp.U16("perm")
-	h.mode = os.FileMode(perm)
+	vp.Assume(perm <= 0o7777)
+	gm := os.FileMode(perm & 0o777)
+	if perm&0o4000 != 0 {
+		gm |= os.ModeSetuid
+	}
+	if perm&0o2000 != 0 {
+		gm |= os.ModeSetgid
+	}
+	if perm&0o1000 != 0 {
+		gm |= os.ModeSticky
+	}
+	h.mode = gm
 	b := h.toBytes()
 	vp.Assert(len(b) == 16, "inode header is 16 bytes")
 	vp.Assert(c07le16(b, 0) == vp.U16("type"), "type at 0")
@@ -44,7 +57,7 @@ func VP_C07_codec_inode_header() {
 	vp.Assert(h2.uidIdx == h.uidIdx, "uid round trip")
 	vp.Assert(h2.gidIdx == h.gidIdx, "gid round trip")
 	vp.Assert(h2.index == h.index, "index round trip")
-	vp.Assert(uint16(h2.mode) == perm, "mode round trip")
+	vp.Assert(h2.mode == gm, "mode round trip (permissions, setuid, setgid, sticky)")
 	vp.Assert(h2.modTime.Unix() == int64(vp.U32("mtime")), "mtime round trip")
 	vp.Cover("inode header round trip")
 }
